@@ -74,6 +74,12 @@ func suiteExport(c *ctx) {
 			tbl("order_item", col("id", "int(11)", oNotNull, oPk), col("status_id", "int(11)")),
 			fk("order", "fk_item_status_order", "item_status_id", "item_status", "id"), fk("order_item", "fk_status_order_item", "status_id", "status", "id")}
 		emit("w-colliding-relation-names", runCfg{dialect: "mysql"}, ss5, nil)
+		// C14-i: three keys of one table, two of them to the same table with another one in between
+		ss6 := []Stmt{tbl("customer", col("id", "int(11)", oNotNull, oPk)), tbl("warehouse", col("id", "int(11)", oNotNull, oPk)),
+			tbl("shipment", col("id", "int(11)", oNotNull, oPk), col("sender_id", "int(11)"), col("depot_id", "int(11)"), col("recipient_id", "int(11)")),
+			fk("shipment", "fk_sender", "sender_id", "customer", "id"), fk("shipment", "fk_depot", "depot_id", "warehouse", "id"),
+			fk("shipment", "fk_recipient", "recipient_id", "customer", "id")}
+		emit("w-two-keys-one-target-interleaved", runCfg{dialect: "mysql"}, ss6, nil)
 		// a key created and dropped again
 		ss2 := append(append([]Stmt{}, ss...), Stmt{Kind: "dropFk", T: "orders", A: "fk_buyer"}, Stmt{Kind: "dropFk", T: "orders", A: "fk_seller"})
 		emit("w-F27-dropped-fk-mark", runCfg{dialect: "mysql"}, ss2, nil)
